@@ -207,6 +207,8 @@ def rule_own(ctx):
 
 EXPLANATION = EXPLANATION + " C02.APPEND's operation sequences include pieces that are nothing but a line break or a blank (where the stream is cut must not matter)."
 
+EXPLANATION = EXPLANATION + " When a buffer is not organised into the helper roles (scan / resynchroniser / frontal drop) through which the symbolic rules extend over all inputs, those rules are decided on an end-to-end catalogue instead and say so: Buffer.process as a whole is evaluated on 30 constant buffer contents x 3 thresholds (valid messages, junk before/between/after, unknown and partial elements, unclosed junk beyond the threshold, quotes and '>' in text, multi-line spellings) and compared with a reference written from the property."
+
 RULES = [
     ("C02.OWN", rule_own, "every connection object constructs its own receive buffer (no buffer shared through a default argument / class attribute)"),
     ("C02.FIND", rule_find, "the scan for a complete element, on constant buffers: exactly the first well-formed prefix is parsed; no '>' candidate is passed over"),
